@@ -292,6 +292,17 @@ def gen_c14(seed, tier, start):
               '{"customElementPatterns": ["(?i)^x-", "^my"]}', '{"customElementPatterns": ["a{2", "}"]}']
     for t in texts:
         out.append({"id": i, "src": src, "syntax": "jsx", "options": t, "stream": "options", "feat": ["options-text"]}); i += 1
+    # (1c) an absent option equals its documented default: a configuration against the same one with
+    # every absent documented key written out, on a module that uses every governed feature
+    documented = {"transformOn": False, "optimize": False, "mergeProps": True, "enableObjectSlots": True, "resolveType": False}
+    for tx in ['{}', '{"optimize":true}', '{"mergeProps":true}', '{"zzz":1}', '{"transformOn":true}', '{"enableObjectSlots":true,"optimize":true}',
+               '{"mergeProps":false}', '{"pragma":"h"}', '{"customElementPatterns":["^x-"]}', '{"enableObjectSlots":false}']:
+        o = json.loads(tx)
+        a = dict(o)
+        for k, dv in documented.items():
+            a.setdefault(k, dv)
+        out.append({"id": i, "src": src + "const w = <Comp>{a}</Comp>;\n", "syntax": "jsx", "options": tx, "options_alt": json.dumps(a),
+                    "stream": "options", "feat": ["options-text", "defaults-pair"], "defaults_pair": True}); i += 1
     # (1b) pattern lists against no pattern at all, on modules none of whose tags they match
     pools = [["(?i)^x-", "^my"], ["^zzz", "(?i:qq)$"], ["^(?i)never", "-nope$"], ["(?s)^q.", "^w"]]
     for c in gen_modules(seed + 17, tier, i, 60, 1500):
@@ -366,6 +377,9 @@ def judge_c14(case, side, res):
         ms = side.get("matches", [])
         if all(not any(m[1]) for m in ms):
             v["ok"] = False; v["oracle_why"] = "custom-element patterns that match no tag of the module (each compiled on its own) changed the output"
+    if res is not None and case.get("defaults_pair") and res.get("alt_same", "1") != "1":
+        v["ok"] = False; v["oracle_why"] = "an absent option does not equal its documented default: %s against %s" % (case["options"], case["options_alt"])
+        return v
     if res is not None and "options_alt" in case and not case.get("nomatch_pair") and res.get("alt_same", "1") != "1":
         v["ok"] = False; v["oracle_why"] = "flipping %s changed the output although the module does not use that feature" % [x for x in case["feat"] if x.startswith("flip:")]
     if case.get("stream") == "options" and res is not None and st == "ok":
